@@ -40,6 +40,7 @@ RULE += (' Also: large all-synchronous runs (70 000+ items) repeated, driven by 
 RULE += (" Also: a tee closed (aclose / async-with exit / child close) during another task's pending read, also inside a running asyncio loop.")
 RULE += (' Also: plain generator functions as callables (nothing reaches the loop, generators come out unstarted).')
 RULE += (' Also: synchronous managers whose enter value is awaitable payload / a generator.')
+RULE += (' Also: an awaitable fill value of zip_longest over several padding rounds.')
 ASSUMPTIONS = ["a loop that checks identity of every token and reply is at least as strict as any real event loop",
                "C functions called from asyncstdlib code are visible to sys.monitoring CALL events"]
 EXHAUSTIVE = {"quick": False, "thorough": False}
@@ -130,7 +131,7 @@ def cases(tier, seed, shard, nshards):
                                    "c07": {"kind": "conc_close", "flav": flav, "reborrow": reborrow, "close_at": close_at,
                                            "susp": susp, "via": via}}
         for tool in ("map", "map2", "starmap", "filter", "takewhile", "accumulate", "reduce", "iter", "exitstack", "sync",
-                     "enter_payload", "enter_generator"):
+                     "enter_payload", "enter_generator", "zip_longest_payload_fill"):
             yield {"kind": "generator-callable", "tool": tool}
         for flav in ("async_class", "async_gen"):
             for n in (1, 2):
@@ -1132,6 +1133,15 @@ def run_generator_callables(case, stats):
             return out
         if tool == "sync":
             return [await A.sync(pieces)(1)]
+        if tool == "zip_longest_payload_fill":
+            # the FILL VALUE is an awaitable object used as data; sources differing in length by several items, so that
+            # padding goes on for several rounds
+            from ..tools import AwaitablePayload
+            fill = AwaitablePayload("fill")
+            rows = await A.list(A.zip_longest([1, 2, 3, 4], [10], (), fillvalue=fill))
+            if [r[2] for r in rows] != [fill] * 4 or any(x is not fill for x in [rows[1][1], rows[2][1], rows[3][1]]):
+                raise AssertionError(f"zip_longest did not pad with the fill value itself: {rows!r}")
+            return None
         if tool in ("enter_payload", "enter_generator"):
             # a purely synchronous context manager whose __enter__ value is an awaitable object used as data (a job
             # handle) / a generator: handed on as it is
